@@ -17,7 +17,7 @@ RULE = ("every canonical vertex sequence (start at the smallest grid point, seco
 BOUND = {"quick": "all simple grid polygons with 3..5 vertices (4x4 grid), all shifts and orientations; stars/regular 3..80; all sub-tissues of a 7-cell base",
          "thorough": "all simple grid polygons with 3..6 vertices (4x4 grid); all sub-tissues of 11-cell base and square3x3"}
 ASSUMPTIONS = ["zero-area vertex sequences are not polygons and are not generated", "y-up frame"]
-REQUIRED_TAGS = {"all": ["polygon_block", "star", "subtissue_holefree", "nonconvex"]}
+REQUIRED_TAGS = {"all": ["polygon_block", "star", "subtissue_holefree", "nonconvex", "history"]}
 
 GRID = [(x, y) for y in range(4) for x in range(4)]
 
@@ -300,6 +300,82 @@ class SubTissueCells:
         return [], []
 
 
+class CellHistories:
+    """operation histories on ONE live Cell object (queries interleaved with in-place edits of the stored
+    cycle, as tests/test_cells.py does), compared after every step with a fresh Cell built from the
+    current cycle (differential oracle). The state key includes the whole instance dictionary, so
+    hidden caches cannot be merged away."""
+    OPS = ["area", "sign", "perimeter", "next", "prev", "neighbors", "reverse_inplace", "reverse_assign", "roll", "mirror_x", "swap_two"]
+    chunk = 32
+
+    def __init__(self, depth):
+        self.name = "cell-histories"
+        self.bound = depth
+
+    def initial(self):
+        polys = {"L6ccw": [(0, 0), (3, 0), (3, 1), (1, 1), (1, 3), (0, 3)], "sq_cw": [(0, 0), (0, 2), (2, 2), (2, 0)], "tri": [(0, 0), (4, 0), (1, 3)]}
+        return [{"poly": k, "P": [list(p) for p in v], "ops": []} for k, v in polys.items()]
+
+    def actions(self, d):
+        return [[o] for o in self.OPS]
+
+    def step(self, d, a):
+        return {"poly": d["poly"], "P": d["P"], "ops": d["ops"] + [a[0]]}
+
+    def _apply(self, cell, op):
+        vs = cell.vertices
+        if op == "area":
+            cell.get_area()
+        elif op == "sign":
+            cell.get_area_sign()
+        elif op == "perimeter":
+            cell.get_perimeter()
+        elif op == "next":
+            cell.get_next_vertex(vs[0])
+        elif op == "prev":
+            cell.get_previous_vertex(vs[-1])
+        elif op == "neighbors":
+            cell.calculate_neighbors()
+        elif op == "reverse_inplace":
+            cell.vertices.reverse()
+        elif op == "reverse_assign":
+            cell.vertices = cell.vertices[::-1]
+        elif op == "roll":
+            cell.vertices = cell.vertices[1:] + cell.vertices[:1]
+        elif op == "mirror_x":
+            for v in vs:
+                v.x = -v.x
+        elif op == "swap_two":
+            # exchanging two neighbouring vertices of a triangle/quad flips or breaks orientation; keep simple: only for triangles
+            if len(vs) == 3:
+                vs[0], vs[1] = vs[1], vs[0]
+
+    def evaluate(self, d):
+        viol = []
+        with fsutil.quiet():
+            cell, vs = make_cell([tuple(p) for p in d["P"]], "centroid")
+            for op in d["ops"]:
+                self._apply(cell, op)
+            P = [(v.x, v.y) for v in cell.vertices]
+            hidden = fsutil.deep_state(cell)    # taken before observing: observation may itself fill caches
+            # navigation and perimeter are read BEFORE the sign is asked for, so that the observation
+            # itself cannot refresh a stale cache
+            nx = [cell.vertices.index(cell.get_next_vertex(v)) for v in cell.vertices]
+            pv = [cell.vertices.index(cell.get_previous_vertex(v)) for v in cell.vertices]
+            pe = float(cell.get_perimeter())
+            live = (float(cell.get_area()), int(cell.get_area_sign()), pe, nx, pv)
+        fresh = observe(P)
+        if list(live) != list(fresh):
+            viol.append({"what": "a cell that was queried and then edited in place reports different geometry than a fresh cell with the same cycle",
+                         "detail": {"ops": d["ops"], "live": live, "fresh": fresh}})
+        check_polygon(P, viol)
+        key = fsutil.state_hash([P, hidden])
+        return {"key": key, "viol": viol, "tags": ["history"], "cls": "%s/%s" % (d["poly"], fsutil.state_hash(P)[:6])}
+
+    def check_edge(self, d, a, d2, r, r2):
+        return [], []
+
+
 def build(tier, seed):
     nmax = 5 if tier == "quick" else 6
     systems = []
@@ -308,6 +384,7 @@ def build(tier, seed):
         systems.append(ListSystem("grid-polygons-%d" % n, blocks, eval_block))
     stars = [{"n": n, "kind": k} for n in list(range(3, 81)) for k in ("regular", "star") if not (k == "star" and (n % 2 or n < 6))]
     systems.append(ListSystem("regular-and-star-polygons", stars, eval_star))
+    systems.append(CellHistories(3 if tier == "quick" else 5))
     if tier == "quick":
         systems.append(SubTissueCells("v5x4", [0, 2], ["none", "alt"]))
         systems.append(SubTissueCells("v4x4p%d" % (seed + 1), [1], ["all"]))
